@@ -23,6 +23,19 @@ CHECKS = {
     ),
 }
 
+CHECKS["C16"] = (
+    "BFS",
+    "model_checking",
+    "explicit-state breadth-first search over histories of tree operations and cache-filling observers, replayed on real DerivationTree objects against a nested-tuple reference",
+    "Breadth-first search over all histories (length <= 3 quick / <= 4 thorough) of replace_path, substitute, expand_one_step, new_ids and "
+    "parse-tree round trips, freely interleaved with eleven cache-filling observers, from six seed trees (closed, open, epsilon, a 32-child "
+    "row, recursive, single open node). Every reached state is rebuilt from scratch on real objects and ~25 invariants (string, openness, "
+    "document-order paths, get_subtree/find_node/next_path/leaves/filter, trie keys/values/items and every subtrie, structural hash/equality, "
+    "sharing and immutability under replace_path) are evaluated against the reference. States are merged only if reference tree AND per-node cache flags agree.",
+    "Constructor hints (is_open=, hash=) are never passed; replacement trees have fresh ids; module-level lru caches are cleared per replay so a state is a function of its history.",
+    "DESIGN.md section 3, C16",
+)
+
 NOT_YET = "check not built yet in this round (planned in DESIGN.md section 3)"
 
 
